@@ -95,8 +95,55 @@ def _signed(inc) -> Any:
     return s if inc["op"] == "Add" else ("neg", s) if inc["op"] == "Sub" else None
 
 
-def _run(prog, roles, probe: Probe):
-    return run_op(prog, roles, "rate", ranks="list-of-int", tau="any", limit_sigma="falsy", custom_gamma=True, setup=probe.setup)
+def _run(prog, roles, probe: Probe, box=None, extra_setup=None):
+    def setup(w):
+        probe.setup(w)
+        if extra_setup is not None:
+            extra_setup(w)
+
+    return run_op(prog, roles, "rate", ranks="list-of-int", tau="any", limit_sigma="falsy", custom_gamma=True, setup=setup, box=box)
+
+
+def discover(prog, roles):
+    """Discovery run: accumulator roles, the updated team's position, the kernel's rank comparisons.
+    Returns (info dict, None) or (None, reason)."""
+    p0 = Probe(prog)
+    oc = _run(prog, roles, p0)
+    if oc.undecided or not oc.returned:
+        return None, "; ".join(oc.undecided[:3]) or "rate does not return"
+    I = oc.I
+    mu_writes = [ev for ev in I.events if ev.kind == "write" and ev.data["origin"] == "input:player" and ev.data["field"] == "mu"]
+    sg_writes = [ev for ev in I.events if ev.kind == "write" and ev.data["origin"] == "input:player" and ev.data["field"] == "sigma" and "_compute" in ev.func]
+    if not mu_writes:
+        return None, "no store to a rating's mu found"
+    mu_tags = {t for ev in mu_writes for t in getattr(ev.data["val"], "prov", ()) if t.startswith("ACC:")}
+    sg_tags = {t for ev in sg_writes for t in getattr(ev.data["val"], "prov", ()) if t.startswith("ACC:")}
+
+    def is_player_temp(tag):
+        return any(i["tag"] == tag and any(t in mu_tags | sg_tags and "_compute" in t for t in getattr(i["rhs"], "prov", ()) if t.startswith("ACC:") and t != tag) for i in p0.incs)
+
+    omega_tags = {t for t in mu_tags if not is_player_temp(t) and "_compute" in t}
+    delta_tags = {t for t in sg_tags - mu_tags if not is_player_temp(t) and "_compute" in t}
+    if not omega_tags:
+        return None, f"no team-level accumulator flows into the mu update (accumulators seen: {sorted(mu_tags)})"
+    tgt = mu_writes[0].data["ptr"]
+    head_i = tgt.idx[0]
+    ti = _tokens(("in", "x", "y", (head_i,)))
+    if len(ti) != 1:
+        return None, f"cannot identify the loop position of the updated team from {tgt}"
+    ti = next(iter(ti))
+    pairs = {}
+    for c in p0.cmps:
+        if "_compute" not in c["func"]:
+            continue
+        a_has, b_has = ti in _tokens(c["a"]), ti in _tokens(c["b"])
+        if a_has == b_has:
+            continue
+        q_sym, i_sym = (c["b"], c["a"]) if a_has else (c["a"], c["b"])
+        pairs[(q_sym, i_sym)] = True
+    if not pairs:
+        return None, "no comparison between the rank of the updated team and another team's rank found in the kernel"
+    return dict(probe=p0, oc=oc, mu_writes=mu_writes, omega_tags=omega_tags, delta_tags=delta_tags, ti=ti, head_i=head_i, pairs=list(pairs), player_token=tgt.idx[1]), None
 
 
 def _job(idx: int) -> List[Dict[str, Any]]:
